@@ -17,6 +17,14 @@ pub fn run(c: &Value) -> CaseResult {
             chk("join idempotent", a.join(&a) == a)?; chk("meet idempotent", a.meet(&a) == a)?;
             chk("join commutative", a.join(&b) == b.join(&a))?; chk("meet commutative", a.meet(&b) == b.meet(&a))?;
             chk("join associative", a.join(&b).join(&d) == a.join(&b.join(&d)))?; chk("meet associative", a.meet(&b).meet(&d) == a.meet(&b.meet(&d)))?;
+            // ring subtraction inverts addition whenever every value involved is an exactly representable integer
+            let int_ok = |x: f64| x.fract() == 0.0 && x.abs() <= 9007199254740992.0;
+            if [a.0, a.1, b.0, b.1].iter().all(|x| int_ok(*x)) && int_ok(a.0 + b.0) && int_ok(a.1 + b.1) && int_ok(a.0 - b.0) && int_ok(a.1 - b.1)
+                && (a.0 as i128 + b.0 as i128 == (a.0 + b.0) as i128) && (a.1 as i128 + b.1 as i128 == (a.1 + b.1) as i128)
+                && (a.0 as i128 - b.0 as i128 == (a.0 - b.0) as i128) && (a.1 as i128 - b.1 as i128 == (a.1 - b.1) as i128) {
+                chk("expected utility: (a+b)-b == a on exact integers", (a + b) - b == a)?;
+                chk("expected utility: (a-b)+b == a on exact integers", (a - b) + b == a)?;
+            }
             if a < b || a == b {
                 chk("a<=b: join is the larger", a.join(&b) == b)?; chk("a<=b: meet is the smaller", a.meet(&b) == a)?;
                 chk("a<=b: choose is the larger", BBSemiring::choose(&a, &b) == b && BBSemiring::choose(&b, &a) == b && BBRing::choose(&a, &b) == b && BBRing::choose(&b, &a) == b)?;
@@ -28,6 +36,11 @@ pub fn run(c: &Value) -> CaseResult {
             chk("join idempotent", a.join(&a) == a)?; chk("meet idempotent", a.meet(&a) == a)?;
             chk("join commutative", a.join(&b) == b.join(&a))?; chk("meet commutative", a.meet(&b) == b.meet(&a))?;
             chk("join associative", a.join(&b).join(&d) == a.join(&b.join(&d)))?; chk("meet associative", a.meet(&b).meet(&d) == a.meet(&b.meet(&d)))?;
+            let int_ok = |x: f64| x.fract() == 0.0 && x.abs() <= 9007199254740992.0;
+            if int_ok(a.0) && int_ok(b.0) && int_ok(a.0 + b.0) && int_ok(a.0 - b.0) && (a.0 as i128 + b.0 as i128 == (a.0 + b.0) as i128) && (a.0 as i128 - b.0 as i128 == (a.0 - b.0) as i128) {
+                chk("real: (a+b)-b == a on exact integers", (a + b) - b == a)?;
+                chk("real: (a-b)+b == a on exact integers", (a - b) + b == a)?;
+            }
             if a <= b {
                 chk("a<=b: join is the larger", a.join(&b) == b)?; chk("a<=b: meet is the smaller", a.meet(&b) == a)?;
                 chk("a<=b: choose is the larger", BBSemiring::choose(&a, &b) == b && BBRing::choose(&b, &a) == b)?;
@@ -88,9 +101,9 @@ pub fn candidates(_seed: u64) -> Vec<Value> {
     for a in 0..5u64 { for b in 0..5u64 { for c in 0..4u64 { out.push(json!({"case": "lat_rational", "a": a, "b": b, "c": c})); } } }
     let cv = vec![json!([0.0, 0.0]), json!([1.0, 0.0]), json!([0.0, 1.0]), json!([-1.0, 2.0]), json!([3.0, -4.0]), json!([9007199254740992.0, 1.0]), json!([1.0, 9007199254740992.0]), json!([-9007199254740992.0, 3.0]), json!([0.5, 0.25])];
     for a in cv.iter() { for b in cv.iter() { for c in cv.iter().take(5) { out.push(json!({"case": "lat_complex", "a": a, "b": b, "c": c})); } } }
-    let vals = vec![json!(0.0), json!("-0"), json!(0.25), json!(1.0), json!(2.0), json!(-3.0), json!(8.0), json!("inf"), json!("-inf")];
+    let vals = vec![json!(0.0), json!("-0"), json!(0.25), json!(1.0), json!(2.0), json!(-3.0), json!(8.0), json!("inf"), json!("-inf"), json!(9007199254740991.0), json!(4503599627370497.0), json!(-4503599627370496.0)];
     for a in vals.iter() { for b in vals.iter() { for c in vals.iter().take(5) { out.push(json!({"case": "lat_real", "a": a, "b": b, "c": c})); } } }
-    let pv = vec![json!([0.0, 0.0]), json!([0.0, 0.25]), json!([1.0, 2.0]), json!([2.0, 1.0]), json!([1.0, 1.0]), json!(["-0", 0.0]), json!([0.5, "inf"]), json!([-1.0, -1.0])];
+    let pv = vec![json!([0.0, 0.0]), json!([0.0, 0.25]), json!([1.0, 2.0]), json!([2.0, 1.0]), json!([1.0, 1.0]), json!(["-0", 0.0]), json!([0.5, "inf"]), json!([-1.0, -1.0]), json!([1.0, 9007199254740991.0]), json!([4503599627370497.0, 5.0]), json!([-4503599627370496.0, 1.0])];
     for a in pv.iter() { for b in pv.iter() { for c in pv.iter().take(4) { out.push(json!({"case": "lat_eu", "a": a, "b": b, "c": c})); } } }
     out
 }
